@@ -11,7 +11,7 @@ use vh_core::engine::{Obs, Rel, Tape, Tier, R};
 use vh_core::toy_ext::{all_elems, enumerate};
 use vh_core::zoo::T7;
 
-fn decode<P: SWCurveConfig>(pts: &[Sw<P::BaseField>], els: &[P::BaseField], t: &mut Tape<'_>) -> Case<SwM<P>> {
+fn decode<P: SWCurveConfig>(pts: &[Sw<P::BaseField>], insub: &[bool], els: &[P::BaseField], t: &mut Tape<'_>) -> Case<SwM<P>> {
     let n = pts.len();
     let q = els.len();
     let i = t.idx(n);
@@ -41,11 +41,11 @@ fn decode<P: SWCurveConfig>(pts: &[Sw<P::BaseField>], els: &[P::BaseField], t: &
     let jp = junk(t);
     let jq = junk(t);
     let sel = t.u64();
-    Case { p: pts[i], q: pts[j], lam, mu, nu, jp, jq, sel }
+    Case { p: pts[i], q: pts[j], lam, mu, nu, jp, jq, sel, try_new: insub[i] }
 }
 
-fn rel<P: SWCurveConfig>(name: &'static str, pts: &[Sw<P::BaseField>], els: &[P::BaseField], t: &mut Tape<'_>, o: &mut Obs) -> R {
-    let c = decode::<P>(pts, els, t);
+fn rel<P: SWCurveConfig>(name: &'static str, pts: &[Sw<P::BaseField>], insub: &[bool], els: &[P::BaseField], t: &mut Tape<'_>, o: &mut Obs) -> R {
+    let c = decode::<P>(pts, insub, els, t);
     o.show(|| format!("{}: P={:?} Q={:?} lambda={:?} mu={:?} sel={:#x}", name, c.p, c.q, c.lam, c.mu, c.sel));
     classify(&c, o)?;
     sw_battery::<P>(&c, o)
@@ -74,7 +74,7 @@ fn all_pairs(n: u64, patterns: u64) -> Box<dyn Iterator<Item = Vec<u64>>> {
     }))
 }
 
-fn add<P: SWCurveConfig>(out: &mut Vec<Rel>, name: &'static str, count: usize, tier: Tier)
+fn add<P: SWCurveConfig>(out: &mut Vec<Rel>, name: &'static str, count: usize, r: u64, tier: Tier)
 where
     P::BaseField: Field<BasePrimeField = T7>,
 {
@@ -82,15 +82,18 @@ where
     let pts = Arc::new(enumerate::<P>());
     assert_eq!(pts.len(), count, "toy curve {}: point count", name);
     assert!(pts.contains(&sw_from_affine::<P>(&P::GENERATOR)), "toy curve {}: generator", name);
+    let rr = num_bigint::BigUint::from(r);
+    let insub: Arc<Vec<bool>> = Arc::new(pts.iter().map(|q| sw_mul(&P::COEFF_A, q, &rr) == Sw::Inf).collect());
+    assert_eq!(insub.iter().filter(|b| **b).count() as u64, r, "toy curve {}: subgroup size", name);
     let n = pts.len() as u64;
     let patterns = if n < 100 { 4 } else { tier.pick(2, 3) };
-    out.push(Rel::new(format!("toy-sw-pairs/{}", name), tier.pick(400, 4000), 12, move |t, o| rel::<P>(name, &pts, &els, t, o)).exhaustive(move || all_pairs(n, patterns)));
+    out.push(Rel::new(format!("toy-sw-pairs/{}", name), tier.pick(400, 4000), 12, move |t, o| rel::<P>(name, &pts, &insub, &els, t, o)).exhaustive(move || all_pairs(n, patterns)));
 }
 
 pub fn relations(out: &mut Vec<Rel>, tier: Tier) {
     macro_rules! curve {
         ($cfg:ty, $name:expr, $count:expr, $h:expr, $r:expr) => {
-            add::<$cfg>(out, $name, $count, tier);
+            add::<$cfg>(out, $name, $count, $r, tier);
         };
     }
     vh_core::for_each_toy_sw_ext!(curve);
